@@ -170,6 +170,7 @@ type Engine struct {
 	// well-known types
 	noopSpan  types.Type
 	timerType types.Type
+	tickerType types.Type
 	timeType  types.Type
 	errType   types.Type
 
